@@ -114,6 +114,10 @@ def classify(ops, res):
     return f"{t[0]}:{feat}:mismatch", f"model and implementation disagree on `{what_in}`: impl={res.impl[-1:]} model={res.model[-1:]}"
 
 
+# a mis-synchronised archive makes boost read garbage sizes: bound what one allocation / the process may take
+ENV = {"ASAN_OPTIONS": "detect_leaks=0:abort_on_error=0:max_allocation_size_mb=512:hard_rss_limit_mb=3000"}
+
+
 def translate(ctx):
     return ctx.translate("serial_fields.py")
 
@@ -146,13 +150,13 @@ def run(ctx):
     ctx.cov["evaluations"] = len(cases)
     ctx.cov["distinct_nontrivial"] = len({c[0] for c in cases if c[0].startswith("obj") or len(c[0].split()) >= 7})
     ctx.sample({"ops": [cases[0][0], cases[len(cases) // 2][0], cases[-1][0]]})
-    core.correspond(ctx, "K-C18", cases, [exe], [drv], classify, keep_prefix=0, max_report=8)
+    core.correspond(ctx, "K-C18", cases, [exe], [drv], classify, env=ENV, keep_prefix=0, max_report=8, timeout=900)
 
 
 def replay(ctx, rep):
     translate(ctx)
     exe = build(ctx); drv = ctx.driver("drv_c18")
-    res = core.run_case(ctx, [exe], [drv], rep["ops"], env=rep.get("env"))
+    res = core.run_case(ctx, [exe], [drv], rep["ops"], env=rep.get("env") or ENV)
     print("\n".join(f"impl : {a}\nmodel: {b}" for a, b in zip(res.impl, res.model)))
     print("stderr:", res.stderr[-2000:])
     print("OK" if res.ok else "FAILS")
